@@ -4,5 +4,6 @@ CONSTANT RcvMode = 0
 CONSTANT SndMode = 0
 CONSTANT PeerH1 = 5
 CONSTANT PeerH3 = 8
+CONSTANT Side = "client"
 INVARIANT Emit
 CHECK_DEADLOCK FALSE
